@@ -122,7 +122,7 @@ class Alphabet:
             if flags & re.IGNORECASE:
                 preds.extend(("ic", m) for m in mine)
         for ch in extra:
-            preds.append(("lit", ord(ch)))
+            preds.append(("lit", ord(ch)))   # every extra character (also "\n") is a representative of its own
         uniq = []
         for p in preds:
             if p not in uniq:
@@ -160,6 +160,7 @@ class NFA:
         self.eps: list[list[int]] = []
         self.eps_begin: list[list[int]] = []
         self.eps_end: list[list[int]] = []
+        self.eps_dollar: list[list[int]] = []   # `$` without MULTILINE: end of input, or just before one final "\n"
         self.start = self.new()
         self.final = self.new()
 
@@ -168,6 +169,7 @@ class NFA:
         self.eps.append([])
         self.eps_begin.append([])
         self.eps_end.append([])
+        self.eps_dollar.append([])
         return len(self.trans) - 1
 
     # ---- building from an sre tree: returns (entry, exit)
@@ -259,8 +261,10 @@ class NFA:
             a, b = self.new(), self.new()
             if av in (sc.AT_BEGINNING, sc.AT_BEGINNING_STRING):
                 self.eps_begin[a].append(b)
-            elif av in (sc.AT_END, sc.AT_END_STRING):
+            elif av is sc.AT_END_STRING:
                 self.eps_end[a].append(b)
+            elif av is sc.AT_END:
+                self.eps_dollar[a].append(b)
             else:
                 raise AnalysisError(f"unsupported anchor {av}")
             return a, b
@@ -358,15 +362,20 @@ class Lang:
         return Lang(nfa, desc)
 
     # ---- determinisation (lazy, memoised)
+    # A subset state is a set of q*3+f: f = 0 no pending assertion, 1 = the rest of the input is "" or "\n" (a `$` was
+    # passed), 2 = the rest of the input is "" (`\Z` was passed, or `$` and then the final newline was consumed).
     def _closure(self, states: frozenset, begin: bool) -> frozenset:
         nfa = self.nfa
         seen = set(states)
         stack = list(states)
         while stack:
-            q = stack.pop()
-            nxt = list(nfa.eps[q])
+            x = stack.pop()
+            q, f = divmod(x, 3)
+            nxt = [r * 3 + f for r in nfa.eps[q]]
             if begin:
-                nxt += nfa.eps_begin[q]
+                nxt += [r * 3 + f for r in nfa.eps_begin[q]]
+            nxt += [r * 3 + 2 for r in nfa.eps_end[q]]
+            nxt += [r * 3 + max(f, 1) for r in nfa.eps_dollar[q]]
             for r in nxt:
                 if r not in seen:
                     seen.add(r)
@@ -374,21 +383,8 @@ class Lang:
         return frozenset(seen)
 
     def _accepting(self, states: frozenset, at_begin: bool) -> bool:
-        nfa = self.nfa
-        seen = set(states)
-        stack = list(states)
-        while stack:
-            q = stack.pop()
-            if q == nfa.final:
-                return True
-            nxt = list(nfa.eps[q]) + nfa.eps_end[q]
-            if at_begin:
-                nxt += nfa.eps_begin[q]
-            for r in nxt:
-                if r not in seen:
-                    seen.add(r)
-                    stack.append(r)
-        return nfa.final in seen
+        fin = self.nfa.final
+        return any(x // 3 == fin for x in states)
 
     def dfa(self):
         """(start_id, trans: list[list[int]], accepting: list[bool]) — complete DFA."""
@@ -396,7 +392,8 @@ class Lang:
             return self._dfa
         nfa = self.nfa
         k = len(nfa.alpha)
-        start = self._closure(frozenset([nfa.start]), True)
+        nl = nfa.alpha.index.get("\n")
+        start = self._closure(frozenset([nfa.start * 3]), True)
         ids = {(start, True): 0}
         order = [(start, True)]
         trans: list[list[int]] = []
@@ -407,10 +404,17 @@ class Lang:
             acc.append(self._accepting(S, at_begin))
             row = []
             moves: list[set] = [set() for _ in range(k)]
-            for q in S:
+            for x in S:
+                q, f = divmod(x, 3)
+                if f == 2:
+                    continue
                 for cs, r in nfa.trans[q]:
+                    if f == 1:
+                        if nl is not None and nl in cs:
+                            moves[nl].add(r * 3 + 2)
+                        continue
                     for c in cs:
-                        moves[c].add(r)
+                        moves[c].add(r * 3)
             for c in range(k):
                 T = self._closure(frozenset(moves[c]), False) if moves[c] else frozenset()
                 key = (T, False)
@@ -499,6 +503,7 @@ def union(alpha: Alphabet, langs: list[Lang], desc: str = "") -> Lang:
             nfa.eps[off + q] = [off + r for r in src.eps[q]]
             nfa.eps_begin[off + q] = [off + r for r in src.eps_begin[q]]
             nfa.eps_end[off + q] = [off + r for r in src.eps_end[q]]
+            nfa.eps_dollar[off + q] = [off + r for r in src.eps_dollar[q]]
         # entering a member keeps "at beginning": use a begin-transparent epsilon
         nfa.eps[nfa.start].append(off + src.start)
         nfa.eps[off + src.final].append(nfa.final)
